@@ -3,6 +3,7 @@
    check_spec: the observation is what the specification (Spec.v, template tree alone) denotes. *)
 From Coq Require Import ZArith QArith Qcanon List Bool.
 Require Import QV.common.Util QV.C02.Spec QV.C02.Model QV.C02.Stack QV.C02.Merge QV.C02.Rewrite.
+Require Import QV.C02.Flatten QV.C02.Params QV.C02.Vol.
 Import ListNotations.
 Open Scope Qc_scope.
 
@@ -36,6 +37,14 @@ Inductive case :=
      path of the sub-loop it was applied to (two cases per run as for CRw) *)
 | CFlat (spec_side : bool) (l : loop) (steps : list (list nat * rw)) (dur0 : Qc) (ws0 : list window)
         (dur1 : Qc) (ws1 : list window)
+  (* round 3: flatten_and_balance(d) against the MODEL of it (Flatten.fab): same logged rewrites, same result *)
+| CFlatM (l : loop) (d : Z) (steps : list (list nat * rw)) (dur1 : Qc) (ws1 : list window)
+  (* round 3: an assignment from which parameters were removed.  pnames = PulseTemplate.parameter_names as the code
+     reports them; rej = create_program raised ParameterNotProvidedException; otherwise the usual observation *)
+| CMissing (p : pt) (en : list (N * Qc)) (mm : list (N * option N)) (pnames : list N) (rej : bool) (o : option obs)
+  (* round 3: a volatile update judged under the executable guard (nothing reversed, every count >= 1 before and
+     after, Vol.vwok on the model's programs): then the windows MUST be the declared ones under the new counts *)
+| CVolG (p : pt) (en en2 : list (N * Qc)) (mm : list (N * option N)) (ws2 : list window)
   (* a case judged on the Python side only (flatten_and_balance / make_compatible: harness py_spec) *)
 | CPyOnly
 | CCrash.
@@ -123,17 +132,78 @@ Definition lookup_is {A} (eqb : A -> A -> bool) (l : list (N * A)) (k : N) (v : 
 Definition optN_eqb (a b : option N) : bool :=
   match a, b with Some x, Some y => N.eqb x y | None, None => true | _, _ => false end.
 
+Definition corr_prog (p : pt) (en : list (N * Qc)) (mm : list (N * option N)) (o : obs) : bool :=
+  match create_program p (env_of en) (mm_of mm), o with
+  | Rejected k, ORejected c => class_matches k c
+  | NoProgram, ONone => true
+  | Program l, OProg d ws dc wsc =>
+      Qceqb (ldur l) d && ms_eqb (loop_windows l) ws
+      && Qceqb (ldur (cleanup l)) dc && ms_eqb (loop_windows (cleanup l)) wsc
+  | _, _ => false
+  end.
+Definition spec_prog (p : pt) (en : list (N * Qc)) (mm : list (N * option N)) (o : obs) : bool :=
+  let e := env_of en in
+  match o with
+  | ORejected c => may_reject c p e     (* a refusal needs a violated condition of that class somewhere in the tree;
+                                           in particular an assignment with nothing to object to must be accepted *)
+  | ONone => negb (plays p e)
+  | OProg d ws dc wsc =>
+      plays p e && Qceqb (tdur p e) d && ms_eqb (denote p e (mm_of mm)) ws
+      && Qceqb (tdur p e) dc && ms_eqb (denote p e (mm_of mm)) wsc
+  end.
+
+Fixpoint steps_eqb (a b : list (list nat * rw)) : bool :=
+  match a, b with
+  | [], [] => true
+  | (p, r) :: a', (p', r') :: b' =>
+      list_eqb Nat.eqb p p' &&
+      match r, r' with
+      | RUnroll i, RUnroll j | RSplit i, RSplit j => Nat.eqb i j
+      | RUnrollChildren, RUnrollChildren | REncapsulate, REncapsulate | RSplitDefault, RSplitDefault | RMerge, RMerge => true
+      | _, _ => false
+      end && steps_eqb a' b'
+  | _, _ => false
+  end.
+Definition set_eqbN (a b : list N) : bool := forallb (fun x => memN x b) a && forallb (fun x => memN x a) b.
+
+(* the template-level part of the volatile guard: nothing is reversed / flattened, every repetition runs at least once *)
+Fixpoint no_rev (p : pt) : bool :=
+  match p with
+  | Atom _ _ _ => true
+  | Multi _ subs | Seq _ subs => forallb no_rev subs
+  | Arith _ l r => no_rev l && no_rev r
+  | Rep _ _ b | For _ _ _ _ _ b | Map _ _ _ b | Pass b => no_rev b
+  | Rev _ | Single _ => false
+  end.
+Fixpoint counts_pos (p : pt) (en : env) : bool :=
+  match p with
+  | Atom _ _ _ => true
+  | Multi _ subs | Seq _ subs => forallb (fun s => counts_pos s en) subs
+  | Arith _ l r => counts_pos l en && counts_pos r en
+  | Rep _ c b => (0 <? rep_count c en)%nat && counts_pos b en
+  | For _ i a b s body => forallb (fun v => counts_pos body (upd en i (Zc v))) (range_vals a b s en)
+  | Map pm _ _ b => counts_pos b (menv pm en)
+  | Rev b | Single b | Pass b => counts_pos b en
+  end.
+Definition vol_guard (p : pt) (en en2 : env) (mm : mmap) : bool :=
+  no_rev p && counts_pos p en && counts_pos p en2 &&
+  match to_program (build p en mm fresh), to_program (buildv p en en2 mm fresh) with
+  | Some a, Some b => vwok a b
+  | _, _ => false
+  end.
+
 Definition check_corr (c : case) : bool :=
   match c with
-  | CProg p en mm o =>
-      match create_program p (env_of en) (mm_of mm), o with
-      | Rejected k, ORejected c => class_matches k c
-      | NoProgram, ONone => true
-      | Program l, OProg d ws dc wsc =>
-          Qceqb (ldur l) d && ms_eqb (loop_windows l) ws
-          && Qceqb (ldur (cleanup l)) dc && ms_eqb (loop_windows (cleanup l)) wsc
-      | _, _ => false
+  | CProg p en mm o => corr_prog p en mm o
+  | CMissing p en mm pnames rej o =>
+      set_eqbN pnames (params p) &&
+      (if rej then negb (provided p en) else match o with Some o => corr_prog p en mm o | None => false end)
+  | CFlatM l d steps d1 ws1 =>
+      match flatten_and_balance 600 d l with
+      | Some (l', st) => steps_eqb st steps && Qceqb (ldur l') d1 && ms_eqb (loop_windows l') ws1
+      | None => false
       end
+  | CVolG _ _ _ _ _ => true
   | CLoop l d ws wrev wclean dc =>
       Qceqb (ldur l) d && ms_eqb (loop_windows l) ws && Qceqb (ldur (cleanup l)) dc
       && match wrev with Some w => ms_eqb (loop_windows (reverse_loop l)) w | None => true end
@@ -177,16 +247,16 @@ Definition check_corr (c : case) : bool :=
 
 Definition check_spec (c : case) : bool :=
   match c with
-  | CProg p en mm o =>
-      let e := env_of en in
-      match o with
-      | ORejected c => may_reject c p e     (* a refusal needs a violated condition of that class somewhere in the tree;
-                                               in particular an assignment with nothing to object to must be accepted *)
-      | ONone => negb (plays p e)
-      | OProg d ws dc wsc =>
-          plays p e && Qceqb (tdur p e) d && ms_eqb (denote p e (mm_of mm)) ws
-          && Qceqb (tdur p e) dc && ms_eqb (denote p e (mm_of mm)) wsc
-      end
+  | CProg p en mm o => spec_prog p en mm o
+  | CMissing p en mm pnames rej o =>
+      (* a ParameterNotProvidedException needs a declared parameter that is missing; an assignment that provides every
+         declared parameter is judged like any other (the values of undeclared parameters do not matter:
+         C02_declared_parameters_suffice) *)
+      if rej then negb (provided p en)
+      else match o with Some o => if provided p en then spec_prog p en mm o else true | None => false end
+  | CFlatM _ _ _ _ _ => true
+  | CVolG p en en2 mm ws2 =>
+      if vol_guard p (env_of en) (env_of en2) (mm_of mm) then ms_eqb (denote p (env_of en2) (mm_of mm)) ws2 else true
   | CLoop l d ws wrev wclean dc =>
       ms_eqb (exec_windows l) ws && (if no_empty l then Qceqb d dc else true)
       && match wrev with Some w => ms_eqb (mirror d ws) w | None => true end       (* reversal mirrors about the duration *)
